@@ -109,7 +109,7 @@ func registry() map[string]PropSpec {
 			{Pkg: ".", Name: "c04_positions", Quick: map[string]int{"groups": 8}, Unwind: [2]int{48, 48},
 				Models: []string{"github.com/buildkite/interpolate.Interpolate=vpModelInterpolate"}, Validate: []string{"interpolate"},
 				What:   "(*Pipeline).Interpolate with the real envInterpolator on one instance of every step kind with a distinct string in every string position: each equals the single-pass expansion of the original (escaped references once), signature untouched, shapes unchanged; all map iteration orders and produced-or-skipped choices for entries inserted during iteration"},
-			{Pkg: ".", Name: "c04_walkers", Quick: map[string]int{"depth": 1, "fan": 2}, Thorough: map[string]int{"depth": 2, "fan": 1}, Unwind: [2]int{24, 32}, Budget: [2]int{120, 1500},
+			{Pkg: ".", Name: "c04_walkers", Quick: map[string]int{"depth": 1, "fan": 2}, Thorough: map[string]int{"depth": 2, "fan": 2}, Unwind: [2]int{24, 32}, Budget: [2]int{120, 2700},
 				What: "interpolateAny/Slice/Map/OrderedMap and Plugin.interpolate with a marking transformer (injective, not idempotent) on arbitrary trees of strings, []any, []string, map[string]any, map[string]string, *MapSA, *MapSS, *Plugin, ints, bools, nil: result equals an independently built expected tree"},
 			{Pkg: ".", Name: "c04_error", Quick: map[string]int{}, Unwind: [2]int{48, 48},
 				Models: []string{"github.com/buildkite/interpolate.Interpolate=vpModelInterpolate"},
